@@ -42,7 +42,7 @@ Definition covers (nd : node) (t : target) : Prop := Covers courses nd (t_K t).
 (* what is still assumed in this spike: no panic / overflow outcome, and the score range *)
 Hypothesis Hnopanic : forall nd, f nd <> EngP2.PanicR _ _.
 Variables (smin smax : Z).
-Hypothesis Hrange : forall t, (smin < value t <= smax)%Z.
+Hypothesis Hrange : forall t, (value t <= smax)%Z.
 
 Theorem C02_partial_noroom k st :
   EngP2.Reach node assignment f root smin smax k st -> 0 < k ->
@@ -50,7 +50,7 @@ Theorem C02_partial_noroom k st :
   forall t : target, EngP2.best node assignment st <> None /\ (score_of courses parts (t_a t) <= EngP2.bscore node assignment st)%Z.
 Proof.
   intros R Hk Hall t.
-  refine (EngP2.engine_complete node assignment f root smin smax target value covers _ _ _ _ _ _ Hnopanic k st R Hk Hall t).
+  refine (EngP2.engine_complete node assignment f root smin smax target value covers _ _ _ _ _ Hnopanic k st R Hk Hall t).
   - (* root covers everything *)
     intros t0. constructor; cbn; auto; [intros c H; discriminate|intros c []|constructor].
   - (* "no solution" nodes cover nothing *)
@@ -66,7 +66,6 @@ Proof.
     pose proof (covered_node_bound courses parts no_rooms the_pick Hinstr_rng Hpairs nd (t_K t0) (t_a t0) (t_sol t0) Hcov no_rooms_val) as B.
     destruct (run courses parts no_rooms the_pick nd) as [[|cs' s'|]| |] eqn:Er; try discriminate. inversion Hf; subst. split; [exact B|].
     apply (branch_covers courses parts pick_wrong Hone Hminmax maxpen Hpen Hmaxpen nd (t_K t0) (t_a t0) (t_sol t0) (t_fix t0) Hcov cs s Er).
-  - intros t0. apply Hrange.
   - intros t0. apply Hrange.
 Qed.
 End Final.
